@@ -152,7 +152,7 @@ Section Eqns.
   Lemma pack_TData_obj rc fs c :
     pk (VObj rc fs) (TData c) =
       match target E m c rc with
-      | Some d => pack_fields_cl call dflt d (map (fun kv => match kv with (k, x) => (k, (is_none x, pk x)) end) fs)
+      | Some d => pack_fields_cl call dflt d (map (fun kv => match kv with (k, x) => (k, (x, pk x)) end) fs)
       | None => Err XRaw
       end.
   Proof. reflexivity. Qed.
@@ -213,6 +213,8 @@ Proof. intros H. unfold dispatch. simpl. rewrite H. rewrite orb_true_r. reflexiv
 Definition same_shape (d d': cdef) : Prop :=
   c_name d = c_name d' /\ c_parent d = c_parent d' /\ c_fields d = c_fields d' /\
   (c_by_alias d = c_by_alias d' /\ c_omit_none d = c_omit_none d') /\
+  (c_omit_default d = c_omit_default d' /\ c_defaults d = c_defaults d') /\
+  (c_sort_keys d = c_sort_keys d' /\ c_forbid_extra d = c_forbid_extra d' /\ c_allow_by_name d = c_allow_by_name d') /\
   (c_has_method d = true -> c_has_method d' = true).
 Definition extends (E X: env) : Prop :=
   forall c d, find_cls E c = Some d -> exists d', find_cls X c = Some d' /\ same_shape d d'.
@@ -223,15 +225,35 @@ Lemma extends_refl E : extends E E.
 Proof. intros c d H. exists d. split; [exact H|apply same_shape_refl]. Qed.
 Lemma extends_trans E1 E2 E3 : extends E1 E2 -> extends E2 E3 -> extends E1 E3.
 Proof.
-  intros H12 H23 c d H. destruct (H12 c d H) as [d2 [H2 [S1 [S2 [S3 [[S4 S4'] S5]]]]]].
-  destruct (H23 c d2 H2) as [d3 [H3 [T1 [T2 [T3 [[T4 T4'] T5]]]]]].
+  intros H12 H23 c d H. destruct (H12 c d H) as [d2 [H2 [S1 [S2 [S3 [[S4 S4'] [[S9 S10] [[S6 [S7 S8]] S5]]]]]]]].
+  destruct (H23 c d2 H2) as [d3 [H3 [T1 [T2 [T3 [[T4 T4'] [[T9 T10] [[T6 [T7 T8]] T5]]]]]]]].
   exists d3. split; [exact H3|]. repeat split; try congruence. intros Hm. apply T5, S5, Hm.
 Qed.
 
 Lemma has_method_mono E X c : extends E X -> has_method E c = true -> has_method X c = true.
 Proof.
   intros Hext. unfold has_method. destruct (find_cls E c) as [d|] eqn:Hf; [|discriminate].
-  destruct (Hext c d Hf) as [d' [Hf' [_ [_ [_ [_ Hm]]]]]]. rewrite Hf'. exact Hm.
+  destruct (Hext c d Hf) as [d' [Hf' [_ [_ [_ [_ [_ [_ Hm]]]]]]]]. rewrite Hf'. exact Hm.
+Qed.
+
+Lemma In_insert_field f g l : In g (insert_field f l) <-> f = g \/ In g l.
+Proof.
+  induction l as [|h r IH]; simpl; [tauto|].
+  destruct (String.leb (f_name f) (f_name h)); simpl; [tauto|]. rewrite IH. tauto.
+Qed.
+Lemma In_sort_fields g l : In g (sort_fields l) <-> In g l.
+Proof.
+  induction l as [|h r IH]; simpl; [tauto|]. rewrite In_insert_field, IH. tauto.
+Qed.
+Lemma In_pack_order d f : In f (pack_order d) <-> In f (c_fields d).
+Proof. unfold pack_order. destruct (c_sort_keys d); [apply In_sort_fields|tauto]. Qed.
+Lemma pack_order_shape d d' : same_shape d d' -> pack_order d' = pack_order d.
+Proof. intros [_ [_ [Hf [_ [_ [[Hs _] _]]]]]]. unfold pack_order. rewrite Hf, Hs. reflexivity. Qed.
+Lemma pack_order_nonempty d : c_fields d <> [] -> pack_order d <> [].
+Proof.
+  intros Hne Hp. destruct (c_fields d) as [|f r] eqn:Hf; [contradiction|].
+  assert (In f (pack_order d)) by (apply In_pack_order; rewrite Hf; left; reflexivity).
+  rewrite Hp in H. destruct H.
 Qed.
 
 (* ------------------------------------------------------------------ *)
@@ -246,13 +268,14 @@ Section Agree.
   Hypothesis Henv : no_lookalike_env E = true.
   (* the two layerings resolve every option of every class alike *)
   Hypothesis Hopts : forall d d', In d E -> same_shape d d' ->
-    eff_by_alias c1 d1 d' = eff_by_alias c2 d2 d /\ eff_omit_none c1 d1 d' = eff_omit_none c2 d2 d.
+    eff_by_alias c1 d1 d' = eff_by_alias c2 d2 d /\ eff_omit_none c1 d1 d' = eff_omit_none c2 d2 d /\
+    eff_omit_default c1 d1 d' = eff_omit_default c2 d2 d.
   Hypothesis Hnames : names_ok E = true.
 
   Notation pm := (pack X m c1 d1).
   Notation pc := (pack E Codec c2 d2).
-  Notation closX := (fun kv : string * val => match kv with (k, x) => (k, (is_none x, pack X m c1 d1 x)) end).
-  Notation closE := (fun kv : string * val => match kv with (k, x) => (k, (is_none x, pack E Codec c2 d2 x)) end).
+  Notation closX := (fun kv : string * val => match kv with (k, x) => (k, (x, pack X m c1 d1 x)) end).
+  Notation closE := (fun kv : string * val => match kv with (k, x) => (k, (x, pack E Codec c2 d2 x)) end).
   Notation eclos := (fun kv : string * val => match kv with (k, x) => (k, exact E x) end).
 
   Definition good (v: val) : Prop :=
@@ -261,6 +284,13 @@ Section Agree.
 
   Lemma key_eq d d' f : In d E -> same_shape d d' -> key_of c1 d1 d' f = key_of c2 d2 d f.
   Proof. intros Hin Hsh. unfold key_of. rewrite (proj1 (Hopts d d' Hin Hsh)). reflexivity. Qed.
+
+  Lemma drop_eq d d' f x : In d E -> same_shape d d' -> drop_field c1 d1 d' f x = drop_field c2 d2 d f x.
+  Proof.
+    intros Hin Hsh. destruct (Hopts d d' Hin Hsh) as [_ [Hon Hod]].
+    destruct Hsh as [_ [_ [_ [_ [[_ Hdef] _]]]]].
+    unfold drop_field. rewrite Hon, Hod, <- Hdef. reflexivity.
+  Qed.
 
   Lemma field_ty_ok d f : In d E -> In f (c_fields d) -> no_lookalike_ty E (f_ty f) = true.
   Proof.
@@ -309,30 +339,29 @@ Section Agree.
     exists y, pack_fields_cl c2 d2 d (map closE fs) = Ok y.
   Proof.
     intros Hd Hsh Hex Hall. unfold pack_fields_cl.
-    assert (Hflds: c_fields d' = c_fields d) by (destruct Hsh as [_ [_ [H _]]]; symmetry; exact H).
-    rewrite Hflds.
-    assert (Hf: forall f, In f (c_fields d) ->
+    rewrite (pack_order_shape d d' Hsh).
+    assert (Hf: forall f, In f (pack_order d) ->
               exists x y, assoc fs (f_name f) = Some x /\ pm x (f_ty f) = Ok y /\ pc x (f_ty f) = Ok y).
-    { intros f Hf. destruct (exact_fields_assoc fs (c_fields d) Hex (fields_nodup d Hd) f Hf) as [x [Ha [Hi He]]].
+    { intros f Hf. apply In_pack_order in Hf. destruct (exact_fields_assoc fs (c_fields d) Hex (fields_nodup d Hd) f Hf) as [x [Ha [Hi He]]].
       rewrite Forall_forall in Hall. specialize (Hall _ Hi). simpl in Hall.
       destruct (Hall (f_ty f) He (field_ty_ok d f Hd Hf)) as [Heq [y Hy]].
       exists x, y. repeat split; [exact Ha|rewrite Heq; exact Hy|exact Hy]. }
     split.
     - f_equal. apply mapM_ext_in. intros f Hin. destruct (Hf f Hin) as [x [y [Ha [Hm Hc]]]].
-      rewrite (assoc_map (fun x => (is_none x, pack X m c1 d1 x))), (assoc_map (fun x => (is_none x, pack E Codec c2 d2 x))).
-      rewrite Ha. simpl. rewrite (proj2 (Hopts d d' Hd Hsh)).
-      destruct (eff_omit_none c2 d2 d && is_none x && is_opt (f_ty f)); [reflexivity|].
+      rewrite (assoc_map (fun x => (x, pack X m c1 d1 x))), (assoc_map (fun x => (x, pack E Codec c2 d2 x))).
+      rewrite Ha. simpl. rewrite (drop_eq d d' f x Hd Hsh).
+      destruct (drop_field c2 d2 d f x); [reflexivity|].
       rewrite Hm, Hc. rewrite (key_eq d d' f Hd Hsh). reflexivity.
     - destruct (mapM_ok (fun f => match assoc (map closE fs) (f_name f) with
                                   | None => Err XRaw
-                                  | Some (isn, g) =>
-                                      if eff_omit_none c2 d2 d && isn && is_opt (f_ty f) then Ok []
+                                  | Some (x, g) =>
+                                      if drop_field c2 d2 d f x then Ok []
                                       else match g (f_ty f) with
                                            | Ok y => Ok [(key_of c2 d2 d f, y)]
-                                           | Err e => Err e end end) (c_fields d)) as [ys Hys].
+                                           | Err e => Err e end end) (pack_order d)) as [ys Hys].
       + intros f Hin. destruct (Hf f Hin) as [x [y [Ha [Hm Hc]]]].
-        rewrite (assoc_map (fun x => (is_none x, pack E Codec c2 d2 x))). rewrite Ha. simpl.
-        destruct (eff_omit_none c2 d2 d && is_none x && is_opt (f_ty f)); [eexists; reflexivity|].
+        rewrite (assoc_map (fun x => (x, pack E Codec c2 d2 x))). rewrite Ha. simpl.
+        destruct (drop_field c2 d2 d f x); [eexists; reflexivity|].
         rewrite Hc. eexists; reflexivity.
       + rewrite Hys. eexists; reflexivity.
   Qed.
@@ -381,12 +410,12 @@ Section Agree.
     intros HextY Hex Hdist. destruct (exact_obj_inv _ _ _ Hex) as [_ [db [Hfb Hfs]]].
     unfold distinguishes in Hdist. rewrite Hfb in Hdist.
     destruct (find_cls E a) as [da|] eqn:Hfa; [|discriminate].
-    destruct (HextY a da Hfa) as [da' [Hfa' [_ [_ [Hflds _]]]]].
+    destruct (HextY a da Hfa) as [da' [Hfa' Hsh]].
     apply existsb_exists in Hdist. destruct Hdist as [n [Hn Hnot]].
-    rewrite pack_TData_obj. unfold target. rewrite Hfa'. unfold pack_fields_cl. rewrite <- Hflds.
+    rewrite pack_TData_obj. unfold target. rewrite Hfa'. unfold pack_fields_cl. rewrite (pack_order_shape da da' Hsh).
     apply fmap_err. unfold field_names in Hn. apply in_map_iff in Hn. destruct Hn as [f [Hfn Hf]].
-    apply (mapM_err _ _ f Hf).
-    rewrite (assoc_map (fun x => (is_none x, pack Y Codec ca da_ x))). rewrite assoc_none; [simpl; eexists; reflexivity|].
+    apply (mapM_err _ _ f (proj2 (In_pack_order da f) Hf)).
+    rewrite (assoc_map (fun x => (x, pack Y Codec ca da_ x))). rewrite assoc_none; [simpl; eexists; reflexivity|].
     rewrite (exact_fields_names _ _ Hfs). intros Hin. rewrite Hfn in Hin.
     apply negb_true_iff in Hnot. apply str_in_In in Hin. unfold field_names in Hnot. rewrite Hin in Hnot. discriminate.
   Qed.
@@ -398,9 +427,11 @@ Section Agree.
     is_err (pack Y m' ca da_ v (TData a)).
   Proof.
     intros HextY Hv [da [Hfa Hne]].
-    destruct (HextY a da Hfa) as [da' [Hfa' [_ [_ [Hflds _]]]]].
+    destruct (HextY a da Hfa) as [da' [Hfa' Hsh]].
+    pose proof (pack_order_nonempty da Hne) as Hpo.
     destruct v; try (destruct m'; simpl; [eexists; reflexivity|];
-                     rewrite Hfa'; unfold pack_fields_cl; rewrite <- Hflds; destruct (c_fields da) as [|f fr];
+                     rewrite Hfa'; unfold pack_fields_cl; rewrite (pack_order_shape da da' Hsh);
+                     destruct (pack_order da) as [|f fr];
                      [contradiction|simpl; eexists; reflexivity]).
     exfalso. eapply Hv. reflexivity.
   Qed.
@@ -560,25 +591,31 @@ Section Agree.
 End Agree.
 
 (* how the two placements of ONE dialect resolve: call-time (mixin) vs default (codec) *)
+Lemma opt_swap o c : opt_compat o c = true ->
+  opt_or o (opt_or c (opt_or None false)) = opt_or None (opt_or c (opt_or o false)).
+Proof.
+  unfold opt_compat. destruct o as [b|], c as [b'|]; simpl; intros H; try reflexivity.
+  apply Bool.eqb_prop in H. subst. reflexivity.
+Qed.
+
 Lemma layers_swap E o : dialect_compat_o E o = true ->
   forall d d', In d E -> same_shape d d' ->
-    eff_by_alias o no_opts d' = eff_by_alias no_opts o d /\ eff_omit_none o no_opts d' = eff_omit_none no_opts o d.
+    eff_by_alias o no_opts d' = eff_by_alias no_opts o d /\ eff_omit_none o no_opts d' = eff_omit_none no_opts o d /\
+    eff_omit_default o no_opts d' = eff_omit_default no_opts o d.
 Proof.
-  intros Hc d d' Hin [_ [_ [_ [[Hba Hon] _]]]]. unfold dialect_compat_o in Hc. rewrite forallb_forall in Hc.
-  specialize (Hc d Hin). apply andb_true_iff in Hc. destruct Hc as [H1 H2].
-  unfold eff_by_alias, eff_omit_none. rewrite <- Hba, <- Hon. simpl.
-  unfold opt_compat in H1, H2.
-  split.
-  - destruct (o_by_alias o) as [b|], (c_by_alias d) as [b'|]; simpl; try reflexivity.
-    apply Bool.eqb_prop in H1. subst. reflexivity.
-  - destruct (o_omit_none o) as [b|], (c_omit_none d) as [b'|]; simpl; try reflexivity.
-    apply Bool.eqb_prop in H2. subst. reflexivity.
+  intros Hc d d' Hin [_ [_ [_ [[Hba Hon] [[Hod _] _]]]]]. unfold dialect_compat_o in Hc. rewrite forallb_forall in Hc.
+  specialize (Hc d Hin). apply andb_true_iff in Hc. destruct Hc as [Hc H3].
+  apply andb_true_iff in Hc. destruct Hc as [H1 H2].
+  unfold eff_by_alias, eff_omit_none, eff_omit_default. rewrite <- Hba, <- Hon, <- Hod. simpl o_by_alias. simpl o_omit_none. simpl o_omit_default.
+  repeat split; apply opt_swap; assumption.
 Qed.
 
 Lemma layers_same c0 d0 : forall (E: env) d d', In d E -> same_shape d d' ->
-    eff_by_alias c0 d0 d' = eff_by_alias c0 d0 d /\ eff_omit_none c0 d0 d' = eff_omit_none c0 d0 d.
+    eff_by_alias c0 d0 d' = eff_by_alias c0 d0 d /\ eff_omit_none c0 d0 d' = eff_omit_none c0 d0 d /\
+    eff_omit_default c0 d0 d' = eff_omit_default c0 d0 d.
 Proof.
-  intros E d d' _ [_ [_ [_ [[Hba Hon] _]]]]. unfold eff_by_alias, eff_omit_none. rewrite Hba, Hon. split; reflexivity.
+  intros E d d' _ [_ [_ [_ [[Hba Hon] [[Hod _] _]]]]]. unfold eff_by_alias, eff_omit_none, eff_omit_default.
+  rewrite Hba, Hon, Hod. repeat split; reflexivity.
 Qed.
 
 Theorem agree_exact_o E o t v :
@@ -594,14 +631,14 @@ Theorem agree_exact E dl t v :
   no_lookalike_union E t = true -> dialect_compat E dl = true -> names_ok E = true ->
   exact E v t = true ->
   run_pack E Mixin dl t v = run_pack E Codec dl t v.
-Proof. intros Hl Hd Hn Hex. exact (proj1 (agree_exact_o E (mkO dl None) t v Hl Hd Hn Hex)). Qed.
+Proof. intros Hl Hd Hn Hex. exact (proj1 (agree_exact_o E (mkO dl None None) t v Hl Hd Hn Hex)). Qed.
 
 Theorem exact_serializes E dl t v :
   no_lookalike_union E t = true -> dialect_compat E dl = true -> names_ok E = true ->
   exact E v t = true ->
   exists y, run_pack E Codec dl t v = Ok y /\ run_pack E Mixin dl t v = Ok y.
 Proof.
-  intros Hl Hd Hn Hex. destruct (agree_exact_o E (mkO dl None) t v Hl Hd Hn Hex) as [Heq [y Hy]].
+  intros Hl Hd Hn Hex. destruct (agree_exact_o E (mkO dl None None) t v Hl Hd Hn Hex) as [Heq [y Hy]].
   exists y. unfold run_pack. rewrite Heq. split; exact Hy.
 Qed.
 
@@ -625,7 +662,7 @@ Theorem frame_exact E X m dl t v :
   no_lookalike_union E t = true -> dialect_compat E dl = true -> names_ok E = true ->
   exact E v t = true ->
   run_pack X m dl t v = run_pack E m dl t v.
-Proof. intros Hext Hl Hd Hn Hex. exact (frame_exact_o E X m (mkO dl None) t v Hext Hl Hd Hn Hex). Qed.
+Proof. intros Hext Hl Hd Hn Hex. exact (frame_exact_o E X m (mkO dl None None) t v Hext Hl Hd Hn Hex). Qed.
 
 (* ------------------------------------------------------------------ *)
 (* compositionality: a codec for a composite shape = the element codec elementwise           *)
@@ -693,25 +730,27 @@ Section Comp.
     fmap (fun l => VDict (List.concat l))
       (mapM (fun f => match assoc fs (f_name f) with
                       | None => Err XRaw
-                      | Some x => if eff_omit_none call dflt d && is_none x && is_opt (f_ty f) then Ok []
+                      | Some x => if drop_field call dflt d f x then Ok []
                                   else fmap (fun y => [(key_of call dflt d f, y)]) (rp (f_ty f) x)
-                      end) (c_fields d)).
+                      end) (pack_order d)).
   Proof.
     intros Hf. cbv beta. rewrite pack_TData_obj.
     assert (Ht: target E m o o = Some d) by (unfold target; destruct m; [rewrite dispatch_self|]; exact Hf).
     rewrite Ht. unfold pack_fields_cl. f_equal. apply mapM_ext_in. intros f _.
-    rewrite (assoc_map (fun x => (is_none x, pack E m call dflt x))). destruct (assoc fs (f_name f)) as [x|]; simpl; [|reflexivity].
-    destruct (eff_omit_none call dflt d && is_none x && is_opt (f_ty f)); [reflexivity|].
+    rewrite (assoc_map (fun x => (x, pack E m call dflt x))). destruct (assoc fs (f_name f)) as [x|]; simpl; [|reflexivity].
+    destruct (drop_field call dflt d f x); [reflexivity|].
     destruct (pack E m call dflt x (f_ty f)); reflexivity.
   Qed.
 
   (* Outer(f=x).to_dict()['f'] for a one-field wrapper class whose field is not dropped *)
   Corollary comp_wrapper w d t x :
     find_cls E w = Some d -> c_fields d = [mkF "f" None t] ->
-    eff_omit_none call dflt d && is_none x && is_opt t = false ->
+    drop_field call dflt d (mkF "f" None t) x = false ->
     rp (TData w) (VObj w [("f", x)]) = fmap (fun y => VDict [("f", y)]) (rp t x).
   Proof.
-    intros Hf Hfl Hom. pose proof (comp_field w d [("f", x)] Hf) as Hc. cbv beta in Hc |- *. rewrite Hc. rewrite Hfl. simpl. rewrite Hom.
+    intros Hf Hfl Hom. pose proof (comp_field w d [("f", x)] Hf) as Hc. cbv beta in Hc |- *. rewrite Hc.
+    assert (Hpo: pack_order d = [mkF "f" None t]) by (unfold pack_order; rewrite Hfl; destruct (c_sort_keys d); reflexivity).
+    rewrite Hpo. simpl. rewrite Hom.
     unfold key_of. simpl. destruct (eff_by_alias call dflt d); destruct (pack E m call dflt x t); reflexivity.
   Qed.
 End Comp.
@@ -726,7 +765,7 @@ Inductive op :=
 | OpCall (m: mode) (dl: option bool) (t: ty) (v: val).   (* an observed call *)
 
 Definition set_method (comp: list cname) (d: cdef) : cdef :=
-  if str_in (c_name d) comp then mkC (c_name d) (c_parent d) (c_fields d) (c_by_alias d) (c_omit_none d) true else d.
+  if str_in (c_name d) comp then mkC (c_name d) (c_parent d) (c_fields d) (c_by_alias d) (c_omit_none d) (c_omit_default d) (c_defaults d) (c_sort_keys d) (c_forbid_extra d) (c_allow_by_name d) true else d.
 
 Definition add_class (E: env) (d: cdef) (comp: list cname) : env :=
   match find_cls E (c_name d) with
@@ -808,7 +847,7 @@ Definition f_ (n: string) (t: ty) : fdef := mkF n None t.
 
 (* D8: look-alike members.  K0.x:int, K1.x:date *)
 Definition E_look : env :=
-  [mkC "K0" None [f_ "x" TInt] None None true; mkC "K1" None [f_ "x" TDate] None None true].
+  [mkC "K0" None [f_ "x" TInt] None None None [] false false false true; mkC "K1" None [f_ "x" TDate] None None None [] false false false true].
 Definition t_look := TUnion [TData "K0"; TData "K1"].
 Definition v_look := VObj "K1" [("x", VDate "2020-01-02")].
 
@@ -820,9 +859,9 @@ Proof. repeat split; reflexivity. Qed.
 
 (* strict-subclass instance at a parent-annotated position *)
 Definition E_sub : env :=
-  [mkC "K0" None [f_ "x" TInt] None None true;
-   mkC "K1" (Some "K0") [f_ "x" TInt; f_ "y" TInt] None None true;
-   mkC "K2" None [f_ "f" (TData "K0")] None None true].
+  [mkC "K0" None [f_ "x" TInt] None None None [] false false false true;
+   mkC "K1" (Some "K0") [f_ "x" TInt; f_ "y" TInt] None None None [] false false false true;
+   mkC "K2" None [f_ "f" (TData "K0")] None None None [] false false false true].
 Definition v_sub := VObj "K2" [("f", VObj "K1" [("x", VInt 1); ("y", VInt 2)])].
 
 Lemma subclass_witness :
@@ -833,10 +872,10 @@ Proof. repeat split; try reflexivity. simpl. right. left. reflexivity. Qed.
 
 (* creating a class that annotates the plain subclass K1 changes what an existing call returns *)
 Definition E_fr : env :=
-  [mkC "K0" None [f_ "x" TInt] None None true;
-   mkC "K1" (Some "K0") [f_ "x" TInt; f_ "y" TInt] None None false].
+  [mkC "K0" None [f_ "x" TInt] None None None [] false false false true;
+   mkC "K1" (Some "K0") [f_ "x" TInt; f_ "y" TInt] None None None [] false false false false].
 Definition v_fr := VObj "K1" [("x", VInt 1); ("y", VInt 2)].
-Definition d_new := mkC "S0" None [f_ "g" (TOpt (TData "K1"))] None None true.
+Definition d_new := mkC "S0" None [f_ "g" (TOpt (TData "K1"))] None None None [] false false false true.
 
 Lemma frame_subclass_witness :
   outs E_fr [OpCall Mixin None (TData "K0") v_fr] = [Ok (VDict [("x", VInt 1)])] /\
@@ -845,7 +884,7 @@ Lemma frame_subclass_witness :
 Proof. repeat split; reflexivity. Qed.
 
 (* a field-less dataclass member swallows every value on the codec path *)
-Definition E_fl : env := [mkC "K0" None [] None None true].
+Definition E_fl : env := [mkC "K0" None [] None None None [] false false false true].
 Definition t_fl := TUnion [TData "K0"; TDate].
 Lemma fieldless_witness :
   exact E_fl (VDate "2020-01-02") t_fl = true /\
@@ -854,7 +893,7 @@ Lemma fieldless_witness :
 Proof. repeat split; reflexivity. Qed.
 
 (* call dialect has the highest, default dialect the lowest priority *)
-Definition E_dl : env := [mkC "K0" None [mkF "x" (Some "a_x") TInt] (Some false) None true].
+Definition E_dl : env := [mkC "K0" None [mkF "x" (Some "a_x") TInt] (Some false) None None [] false false false true].
 Lemma dialect_witness :
   exact E_dl (VObj "K0" [("x", VInt 1)]) (TData "K0") = true /\ no_lookalike_union E_dl (TData "K0") = true /\
   run_pack E_dl Mixin (Some true) (TData "K0") (VObj "K0" [("x", VInt 1)]) = Ok (VDict [("a_x", VInt 1)]) /\
@@ -905,7 +944,7 @@ End UnpackComp.
 (* the order of union members is observable (so shape types that are equal up to member order -
    typing.Union compares them as sets - must not share a codec, e.g. in a cache of the one-shot functions) *)
 Definition E_tw : env :=
-  [mkC "A" None [f_ "ref" TInt] None None true; mkC "B" None [f_ "ref" TStr] None None true].
+  [mkC "A" None [f_ "ref" TInt] None None None [] false false false true; mkC "B" None [f_ "ref" TStr] None None None [] false false false true].
 Lemma union_order_witness :
   run_unpack E_tw Codec (TUnion [TData "A"; TData "B"]) (VDict [("ref", VStr "42")]) = Ok (VObj "A" [("ref", VInt 42)]) /\
   run_unpack E_tw Codec (TUnion [TData "B"; TData "A"]) (VDict [("ref", VStr "42")]) = Ok (VObj "B" [("ref", VStr "42")]) /\
@@ -917,7 +956,7 @@ Proof. repeat split; reflexivity. Qed.
    list of instances of ANOTHER class (dynamic dispatch finds their method, `str` positions are not checked) and
    leaks an instance; the codec path's static call fails and the right member is taken *)
 Definition E_uc : env :=
-  [mkC "A" None [f_ "x" TInt] None None true; mkC "B" None [f_ "y" TInt] None None true].
+  [mkC "A" None [f_ "x" TInt] None None None [] false false false true; mkC "B" None [f_ "y" TInt] None None None [] false false false true].
 Definition t_uc := TUnion [TTuple [TData "A"; TStr]; TList (TData "B")].
 Definition v_uc := VList [VObj "B" [("y", VInt 1)]; VObj "B" [("y", VInt 2)]].
 Lemma union_container_witness :
@@ -1041,27 +1080,52 @@ Section UnpackAgree.
   Notation um := (unpack E Mixin).
   Notation uc := (unpack E Codec).
 
-  (* the generated field blocks turn every exception of a value unpacker into InvalidFieldValue: the class of
-     the inner error is not observable *)
-  Lemma unpack_fields_same c d (clm clc: list (string * (ty -> res val))) :
-    (forall key, match assoc clm key, assoc clc key with
-                 | Some gm, Some gc => forall t, gm t = norm (gc t)
-                 | None, None => True
-                 | _, _ => False end) ->
-    unpack_fields_cl c d clm = unpack_fields_cl c d clc.
+  Lemma map_fst_clos {A} (F: val -> A) (kvs: list (string * val)) :
+    map fst (map (fun kv : string * val => match kv with (k, x) => (k, F x) end) kvs) = map fst kvs.
+  Proof. induction kvs as [|[k x] r IH]; simpl; [reflexivity|rewrite IH; reflexivity]. Qed.
+
+  Lemma field_lookup_map {A} (F: val -> A) d (kvs: list (string * val)) f :
+    field_lookup d (map (fun kv : string * val => match kv with (k, x) => (k, F x) end) kvs) f
+    = option_map F (field_lookup d kvs f).
   Proof.
-    intros H. unfold unpack_fields_cl. f_equal. apply mapM_ext_in. intros f _.
-    specialize (H (match f_alias f with Some a => a | None => f_name f end)).
-    destruct (assoc clm _) as [gm|], (assoc clc _) as [gc|]; try contradiction; [|reflexivity].
-    rewrite (H (f_ty f)). destruct (gc (f_ty f)) as [y|e]; simpl; [reflexivity|destruct e; reflexivity].
+    unfold field_lookup. destruct (f_alias f) as [a|]; rewrite !(assoc_map F); [|reflexivity].
+    destruct (assoc kvs a); simpl; [reflexivity|]. destruct (c_allow_by_name d); reflexivity.
+  Qed.
+
+  Lemma field_lookup_in d (kvs: list (string * val)) f x :
+    field_lookup d kvs f = Some x -> exists k, In (k, x) kvs.
+  Proof.
+    assert (Ha: forall key, assoc kvs key = Some x -> In (key, x) kvs).
+    { intros key. induction kvs as [|[k' x'] r IH]; simpl; [discriminate|].
+      destruct (String.eqb_spec k' key) as [->|Hne]; intros Hq; [inversion Hq; left; reflexivity|right; apply IH; exact Hq]. }
+    unfold field_lookup. destruct (f_alias f) as [a|].
+    - destruct (assoc kvs a) eqn:E1; [intros Hq; inversion Hq; subst; exists a; apply Ha; exact E1|].
+      destruct (c_allow_by_name d); [|discriminate]. intros Hq. exists (f_name f). apply Ha. exact Hq.
+    - intros Hq. exists (f_name f). apply Ha. exact Hq.
+  Qed.
+
+  (* the generated field blocks turn every exception of a value unpacker into InvalidFieldValue: the class of
+     the inner error is not observable; the extra-keys test and the key lookup only look at the keys *)
+  Lemma unpack_fields_same c d (kvs: list (string * val)) :
+    (forall k x, In (k, x) kvs -> forall t, um x t = norm (uc x t)) ->
+    unpack_fields_cl c d (map (fun kv : string * val => match kv with (k, x) => (k, um x) end) kvs)
+    = unpack_fields_cl c d (map (fun kv : string * val => match kv with (k, x) => (k, uc x) end) kvs).
+  Proof.
+    intros H. unfold unpack_fields_cl. rewrite !map_fst_clos.
+    destruct (c_forbid_extra d && _); [reflexivity|].
+    f_equal. apply mapM_ext_in. intros f _. rewrite (field_lookup_map um), (field_lookup_map uc).
+    destruct (field_lookup d kvs f) as [x|] eqn:Hl; simpl; [|reflexivity].
+    destruct (field_lookup_in d kvs f x Hl) as [k Hin].
+    rewrite (H k x Hin (f_ty f)). destruct (uc x (f_ty f)) as [y|e]; simpl; [reflexivity|destruct e; reflexivity].
   Qed.
 
   Lemma unpack_fields_no_union c d cl e :
     unpack_fields_cl c d cl = Err e -> norm_err e = e.
   Proof.
-    unfold unpack_fields_cl. destruct (mapM _ (c_fields d)) as [ys|e'] eqn:Hm; simpl; [discriminate|].
+    unfold unpack_fields_cl. destruct (c_forbid_extra d && _); [intros H; inversion H; reflexivity|].
+    destruct (mapM _ (c_fields d)) as [ys|e'] eqn:Hm; simpl; [discriminate|].
     intros H. inversion H; subst. destruct (mapM_err_from _ _ _ Hm) as [f [_ Hf]].
-    destruct (assoc cl _) as [g|]; [|inversion Hf; reflexivity].
+    destruct (field_lookup d cl f) as [g|]; [|destruct (assoc (c_defaults d) (f_name f)); [discriminate|inversion Hf; reflexivity]].
     destruct (g (f_ty f)) as [y|e0]; [discriminate|]. destruct e0; inversion Hf; reflexivity.
   Qed.
 
@@ -1090,18 +1154,10 @@ Section UnpackAgree.
       pose proof (H (k, x) Hx t) as Hq. simpl in Hq. rewrite Hq. destruct (uc x t); reflexivity.
     - (* VDict / TData *)
       simpl. destruct (find_cls E c) as [d|]; [|reflexivity].
-      rewrite (unpack_fields_same c d
-                 (map (fun kv : string * val => match kv with (k, x) => (k, um x) end) kvs)
-                 (map (fun kv : string * val => match kv with (k, x) => (k, uc x) end) kvs)).
+      rewrite (unpack_fields_same c d kvs).
       + destruct (unpack_fields_cl c d _) as [y|e] eqn:He; simpl; [reflexivity|].
         rewrite (unpack_fields_no_union _ _ _ _ He). reflexivity.
-      + intros key. rewrite (assoc_map um), (assoc_map uc).
-        destruct (assoc kvs key) as [x|] eqn:Ha; simpl; [|exact I].
-        intros t0. rewrite Forall_forall in H.
-        assert (Hin: In (key, x) kvs).
-        { clear -Ha. induction kvs as [|[k' x'] r IH]; simpl in *; [discriminate|].
-          destruct (String.eqb_spec k' key) as [->|Hne]; [inversion Ha; left; reflexivity|right; apply IH; exact Ha]. }
-        exact (H (key, x) Hin t0).
+      + intros k x Hin t0. rewrite Forall_forall in H. exact (H (k, x) Hin t0).
     - (* VObj / TData *) simpl. destruct (find_cls E c0) as [d|]; reflexivity.
   Qed.
 
